@@ -158,7 +158,8 @@ impl Scenario for C07Prometheus {
                     .collect(),
             );
         }
-        let hist_prefill = *r.pick(&[0u32, 0, 0, 61, 62, 63, 64, 127]);
+        // (rarely a backlog of more than 32 blocks of 64 samples waiting for one drain)
+        let hist_prefill = if r.chance(25) { 2100 } else { *r.pick(&[0u32, 0, 0, 61, 62, 63, 64, 127]) };
         Plan { cfg, threads, hist_prefill }
     }
     fn execute(&self, plan: &Plan, sched: &SchedSpec) -> RunReport {
